@@ -10,15 +10,19 @@ TLC is the judge everywhere:
       alphabet up to a length bound + random strings <= 80 x sizes 0..100;
       Trace_Cells "hist"/"cps": call histories on the real process-wide caches that exceed both
       capacities (eviction), interleave uncached long strings and re-measure evicted / resident keys;
+      Trace_Cells "mix": histories that interleave cell_len / Segment.cell_length / get_character_cell_size /
+      set_cell_size / chop_cells on one pool of strings, results fed back as later inputs;
       Trace_LruCache: TLC-generated (M2) and random histories on a real LRUCache of capacity 2..4;
       Trace_Segments: adjust_line_length / split_and_crop_lines / set_shape / split_lines / simplify /
-      get_line_length / get_shape.
+      get_line_length / get_shape; the Iterable parameters (split_lines, split_and_crop_lines, simplify) are
+      given as lists and as one-shot iterators.
 Python only enumerates, calls Rich, and projects text to code points / styles to ids.
 """
 import contextlib
 import hashlib
 import itertools
 import json
+import os
 import signal
 from concurrent.futures import ThreadPoolExecutor
 
@@ -486,6 +490,103 @@ def histories(chk, table, batch):
         chk.sample(dict(part="hist", first_events=first["events"][:5], rounds=rounds))
 
 
+# ---- histories that mix the entry points on the same process-wide caches ------------------------------
+def run_mixed_history(rng, nsteps):
+    """cell_len / Segment.cell_length / get_character_cell_size / set_cell_size / chop_cells interleaved on a shared pool of
+    strings; what a call returns (resized strings, chopped pieces) joins the pool and is measured again later, so a result one
+    entry point leaves in a cache is read back through another."""
+    from rich.cells import cell_len, set_cell_size, chop_cells, get_character_cell_size
+    from rich.segment import Segment
+    alpha = QUICK_ALPHA + [0x1100, 0x36F, 98]
+    pool = [tuple(rng.choice(alpha) for _ in range(rng.choice([0, 1, 2, 3, 4, 6, 9]))) for _ in range(40)]
+    pool += [tuple(rng.choice(alpha) for _ in range(n)) for n in (63, 64, 65, 70)]
+    events = []
+    while len(events) < nsteps and not Watch.exhausted():
+        codes = rng.choice(pool)
+        s = _txt(codes)
+        op = rng.choice(["len", "len", "seg", "chr", "set", "set", "chop"])
+        e = dict(op=op, s=list(codes), n=0, pos=0, obs=0, r=[], err="")
+        if op == "len":
+            r, err = guarded(lambda: cell_len(s))
+        elif op == "seg":
+            r, err = guarded(lambda: Segment(s).cell_length)
+        elif op == "chr":
+            r, err = guarded(lambda: sum(get_character_cell_size(c) for c in s))
+        elif op == "set":
+            e["n"] = rng.choice([0, 1, 2, 3, rng.randint(0, 2 * len(s) + 2)])
+            r, err = guarded(lambda: [cps(set_cell_size(s, e["n"]))])
+        else:
+            e["n"] = rng.choice([2, 2, 3, 4, 5, rng.randint(2, 12)])
+            e["pos"] = rng.choice([0, 0, 1, e["n"], rng.randint(0, e["n"])])
+            r, err = guarded(lambda: [cps(p) for p in chop_cells(s, e["n"], position=e["pos"])])
+        if err == "Skipped":
+            break
+        e["err"] = err
+        if not err:
+            if op in ("len", "seg", "chr"):
+                e["obs"] = r if isinstance(r, int) and not isinstance(r, bool) else RAISED + 1
+            else:
+                e["r"] = r
+                for piece in r:                 # outputs become inputs of later calls
+                    if len(pool) < 400 and rng.random() < 0.5:
+                        pool.append(tuple(piece))
+        events.append(e)
+    return events
+
+
+def mixed_histories(chk, batch):
+    rounds = chk.pick(3, 12)
+    total = 0
+    for rnd in range(rounds):
+        ev = run_mixed_history(chk.rng, chk.pick(2500, 6000))
+        total += len(ev)
+        for i in range(0, len(ev), 500):
+            rec = dict(k="mix", events=ev[i:i + 500])
+            codes = set()
+            for e in rec["events"]:
+                codes.update(e["s"])
+                for p in e["r"]:
+                    codes.update(p)
+
+            def h(v, rec=rec, upto=ev[:i + 500], rnd=rnd):
+                n = len(rec["events"])
+                chk.traces += n
+                chk.evaluations += n
+                if v != "ok":
+                    j = int(v.split(" ")[1]) if v.startswith("step ") else 1
+                    e = rec["events"][j - 1]
+                    shape = ""
+                    if e["op"] == "set":
+                        shape = " n=%s" % ("0" if e["n"] == 0 else "pos")
+                    chk.reject("mixed-history %s%s%s" % (v.split(" ", 2)[-1], shape, (" raised=" + e["err"]) if e["err"] else ""),
+                               "%s; event %s" % (v, json.dumps(e)), dict(part="mix", round=rnd, events=upto))
+            batch.add(rec, h, codes)
+        chk.case(("mix", rnd, len(ev)), True)
+    chk.notes["mixed_histories"] = dict(rounds=rounds, events=total,
+                                        ops="cell_len, Segment.cell_length, get_character_cell_size, set_cell_size, chop_cells on one pool; outputs fed back")
+
+
+def replay_mixed(events):
+    """re-run the calls of a recorded mixed history (the pool is implicit in the recorded inputs)"""
+    from rich.cells import cell_len, set_cell_size, chop_cells, get_character_cell_size
+    from rich.segment import Segment
+    out = []
+    for e0 in events:
+        e = dict(e0, obs=0, r=[], err="")
+        s = _txt(e["s"])
+        f = {"len": lambda: cell_len(s), "seg": lambda: Segment(s).cell_length, "chr": lambda: sum(get_character_cell_size(c) for c in s),
+             "set": lambda: [cps(set_cell_size(s, e["n"]))], "chop": lambda: [cps(p) for p in chop_cells(s, e["n"], position=e["pos"])]}[e["op"]]
+        r, err = guarded(f)
+        e["err"] = "" if err == "Skipped" else err
+        if not err:
+            if e["op"] in ("len", "seg", "chr"):
+                e["obs"] = r if isinstance(r, int) and not isinstance(r, bool) else RAISED + 1
+            else:
+                e["r"] = r
+        out.append(e)
+    return out
+
+
 # ---- small real LRUCache: TLC-generated and random histories ------------------------------------
 
 def exec_small(cap, calls):
@@ -620,19 +721,21 @@ def exec_seg(env, case):
     if "lines" in case:
         rec["lines"] = [tojson(l) for l in case["lines"]]
 
+    feed = (lambda segs: iter(segs)) if case.get("it") else (lambda segs: segs)       # Iterable parameters: also one-shot iterators
+
     def call():
         if k == "adjust":
             return "r", env.pline(S.adjust_line_length(mk(case["line"]), case["n"], style=env.styles[case["ps"]], pad=case["pad"]))
         if k == "splitcrop":
-            return "rl", [env.pline(l) for l in S.split_and_crop_lines(mk(case["segs"]), case["n"], style=env.styles[case["ps"]],
+            return "rl", [env.pline(l) for l in S.split_and_crop_lines(feed(mk(case["segs"])), case["n"], style=env.styles[case["ps"]],
                                                                        pad=case["pad"], include_new_lines=case["nl"])]
         if k == "shape":
             h = None if case["h"] < 0 else case["h"]
             return "rl", [env.pline(l) for l in S.set_shape([mk(l) for l in case["lines"]], case["n"], h, style=env.styles[case["ps"]])]
         if k == "split":
-            return "rl", [env.pline(l) for l in S.split_lines(mk(case["segs"]))]
+            return "rl", [env.pline(l) for l in S.split_lines(feed(mk(case["segs"])))]
         if k == "simplify":
-            return "r", env.pline(list(S.simplify(mk(case["segs"]))))
+            return "r", env.pline(list(S.simplify(feed(mk(case["segs"])))))
         if k == "measure":
             lines = [mk(l) for l in case["lines"]]
             w, h = S.get_shape(lines)
@@ -675,6 +778,8 @@ def seg_sig(case, v):
         segs = case["segs"]
         nlst = sorted(set("same" if st == case["ps"] else "other" for t, st, c in segs if 10 in t and not c))
         shape += " newline-segment-style=%s" % ("/".join(nlst) or "none")
+    if case.get("it"):
+        shape += " input=iterator"
     if k == "shape":
         shape = " height=%s" % ("None" if case["h"] < 0 else ("<lines" if case["h"] < len(case["lines"]) else ">=lines"))
     return "%s op=%s%s" % (v, k, shape)
@@ -726,16 +831,17 @@ def seg_cases(chk):
         for n in (0, 1, 2, 4):
             for pad in (True, False):
                 for ps in (0, 2):
-                    cases.append(dict(k="splitcrop", segs=list(segs), n=n, ps=ps, pad=pad, nl=(n + ps) % 4 != 0))
-        cases.append(dict(k="split", segs=list(segs)))
-        cases.append(dict(k="simplify", segs=list(segs)))
+                    cases.append(dict(k="splitcrop", segs=list(segs), n=n, ps=ps, pad=pad, nl=(n + ps) % 4 != 0, it=(n + pad) % 2 == 1))
+        for it in (False, True):
+            cases.append(dict(k="split", segs=list(segs), it=it))
+            cases.append(dict(k="simplify", segs=list(segs), it=it))
     for _ in range(N):
         segs = rnd_segs(True)
         cases.append(dict(k="splitcrop", segs=segs, n=rng.randint(0, 12), ps=rng.randint(0, 3),
-                          pad=rng.random() < 0.7, nl=rng.random() < 0.5))
+                          pad=rng.random() < 0.7, nl=rng.random() < 0.5, it=rng.random() < 0.5))
         if rng.random() < 0.4:
-            cases.append(dict(k="split", segs=segs))
-            cases.append(dict(k="simplify", segs=segs))
+            cases.append(dict(k="split", segs=segs, it=rng.random() < 0.5))
+            cases.append(dict(k="simplify", segs=segs, it=rng.random() < 0.5))
     for _ in range(N // 2):
         lines_ = [rnd_segs(False, 3) for _ in range(rng.randint(0, 4))]
         h = rng.choice([-1, -1, 0, 1, len(lines_), len(lines_) + 2])
@@ -803,12 +909,16 @@ def run(chk: Check):
                        "cache introspection (cell_len.__defaults__, cache_info) is used for evidence and for resetting between rounds only"]
     if chk.replay_only:
         return replay(chk, table)
+    skip_m1 = bool(os.environ.get("VERIF_C13_SKIP_M1"))        # development aid (trying mutants on a loaded machine); never set by ./check
+    if skip_m1:
+        chk.notes["parts_run"] = "M1 skipped (VERIF_C13_SKIP_M1)"
     with ThreadPoolExecutor(1) as bg:
-        fut = bg.submit(m1, chk.pick)     # the model checks run while the real code is exercised
+        fut = bg.submit((lambda pick: []) if skip_m1 else m1, chk.pick)     # the model checks run while the real code is exercised
         batch = Batch("Trace_Cells", "cells")
         codepoints(chk, table, batch)
         strings(chk, table, batch)
         histories(chk, table, batch)
+        mixed_histories(chk, batch)
         batch.judge(chk, table, "M3/M4")
         small_caches(chk, table)
         segments(chk, table)
@@ -834,6 +944,15 @@ def replay(chk, table):
         for x in calls:
             codes.update(x)
         batch.add(dict(k="hist", events=run_len_history(calls)), lambda v: v != "ok" and chk.reject(sig, v, c), codes)
+    elif part == "mix":
+        ev = replay_mixed(c["events"])
+        codes = set()
+        for e in ev:
+            codes.update(e["s"])
+            for p_ in e["r"]:
+                codes.update(p_)
+        for i in range(0, len(ev), 500):
+            batch.add(dict(k="mix", events=ev[i:i + 500]), lambda v: v != "ok" and chk.reject(sig, v, c), codes)
     elif part == "cphist":
         batch.add(exec_cps(c["calls"]), lambda v: v != "ok" and chk.reject(sig, v, c))
     elif part == "lru":
